@@ -14,6 +14,7 @@ BUDGET = {
     'C03': (700, 30000),
     'C04': (400, 20000),
     'C06': (1200, 40000),
+    'C08': (300, 20000),
     'C09': (1500, 60000),
     'C10': (1500, 60000),
     'C12': (1500, 60000),
